@@ -70,7 +70,7 @@ def main(argv):
     ap.add_argument("--keep-facts", action="store_true")
     args = ap.parse_args(argv)
     seed = int(os.environ.get("VERIF_SEED", "0") or 0)
-    pids = list(PROPS) if args.pid == "all" else [args.pid]
+    pids = list(PROPS) if args.pid == "all" else args.pid.split(",")
     for p in pids:
         if p not in PROPS:
             print("unknown property", p)
